@@ -83,11 +83,26 @@ def gen_arg(rng, sf, tmp):
     return {"a": "val", "py": rng.choice([1, "v", None])}
 
 
+def gen_list_op(rng, sk, tmp):
+    """an in-place operation on a list of configurations: a map for the new item (mostly acceptable), sometimes junk"""
+    lists = [(p, sf) for p, sf in C.leaf_paths(sk) if sf["s"] == "cfglist"]
+    if not lists:
+        return None
+    p, sf = rng.choice(lists)
+    v = C.gen_tree_for(rng, sf["schema"], tmp, 0.8, 0.12) if rng.random() < 0.85 else rng.choice([5, "x", None, [1]])
+    mode = rng.choice(["append", "append", "insert", "setidx"])
+    return {"op": "list_op", "key": p, "mode": mode, "i": rng.choice([0, 0, 1, -1, 2, 5, -3]), "value": v}
+
+
 def gen_ops(rng, sk, tmp, n):
     paths = C.leaf_paths(sk)
     ops = []
     for _ in range(n):
         r = rng.random()
+        lo = gen_list_op(rng, sk, tmp) if r < 0.10 else None
+        if lo is not None:
+            ops.append(lo)
+            continue
         if r < 0.55 and paths:
             p, sf = rng.choice(paths)
             ops.append({"op": "setitem", "key": p, "value": gen_arg(rng, sf, tmp), "via": rng.choice(["item", "attr"])})
@@ -117,13 +132,15 @@ def op_values(ops):
             vals.append(a.get("py") if a["a"] == "val" else a.get("tree"))
         elif op["op"] == "load_tree":
             vals.append(op["tree"])
+        elif op["op"] == "list_op":
+            vals.append(op["value"])
         elif op["op"] == "cmdline":
             vals.extend(v for _, v in op["given"])
     return vals
 
 
 def wire_op(op):
-    w = {k: v for k, v in op.items() if k not in ("value", "via", "tree")}
+    w = {k: v for k, v in op.items() if k not in ("value", "via", "tree", "raw")}
     if op["op"] == "setitem":
         a = op["value"]
         if a["a"] == "val":
@@ -132,6 +149,9 @@ def wire_op(op):
             w["value"] = {"a": "cfg", "schema_same": a["schema_same"], "tree": F.enc_val(a["tree"])}
     if op["op"] == "load_tree":
         w["tree"] = F.enc_val(op["tree"])
+    if op["op"] == "list_op":
+        w["v"] = F.enc_val(op["value"])
+        w["i"] = str(op.get("i", 0))
     if op["op"] == "cmdline":
         w.pop("argv", None)
         w["given"] = [[d, F.enc_val(v)] for d, v in op["given"]]
@@ -258,6 +278,17 @@ def run_impl(sk, ops, tmp, keypath, environ=None, tape=None):
                     cc.reset_value(cfg, op["key"])
                 elif k == "defined":
                     out = {"defined": cc.is_value_defined(cfg, op["key"])}
+                elif k == "list_op":
+                    lst = cfg
+                    for part in op["key"].split("."):
+                        lst = lst._data.get(part) if isinstance(lst, Config) else None
+                    val = copy.deepcopy(op["value"])
+                    if op["mode"] == "append":
+                        lst.append(val)
+                    elif op["mode"] == "insert":
+                        lst.insert(op["i"], val)
+                    else:
+                        lst[op["i"]] = val
                 elif k == "setkey":
                     tgt = cfg
                     for part in op["path"]:
